@@ -184,7 +184,6 @@ impl MT202 {
 
         verify_parser_complete(&parser)?;
 
-
         Ok(MT202 {
             field_20,
             field_21,
